@@ -69,9 +69,12 @@ func verifyUnit1(l *Loader, pkgPath, key string, fixed map[string]Val, suffix st
 	}
 	// reset per-unit global tables
 	heap0 = map[string]*Term{}
+	heapSorts = map[string]*Sort{}
 	ex := NewExec(l, res.Name)
 	res.Exec = ex
 	ex.UseBodyOf = c.UseBody
+	abstractRem = c.AbstractRem
+	defer func() { abstractRem = false }()
 	ex.Hidden = map[string]bool{}
 	for _, h := range c.Hide {
 		ex.Hidden[h] = true
@@ -170,6 +173,71 @@ func verifyUnit1(l *Loader, pkgPath, key string, fixed map[string]Val, suffix st
 						Pos: parent.Pos, Src: cl.Src, Bounded: ex.Bounded, Inputs: ex.Inputs, Trivial: tr.IsTrue()}
 					parent.Subs = append(parent.Subs, sub)
 				}
+			}
+		}
+		if len(c.Cases) > 0 {
+			// proof hint: split every postcondition by the case conditions (evaluated at entry)
+			var conds []*Term
+			for _, cc := range c.Cases {
+				conds = append(conds, env.evalBool(cc))
+			}
+			for _, o := range ex.Obls {
+				if o.Kind != "post" && o.Kind != "lemma" {
+					continue
+				}
+				base := o.Subs
+				if len(base) == 0 {
+					cp := *o
+					cp.Name = o.Name + "@all"
+					base = []*Obl{&cp}
+				}
+				for _, ct := range conds {
+					var next []*Obl
+					for _, b := range base {
+						for pol, t := range []*Term{ct, Not(ct)} {
+							nb := *b
+							nb.Assume = append(append([]*Term{}, b.Assume...), t)
+							nb.Name = fmt.Sprintf("%s@case%d", b.Name, pol)
+							nb.Trivial = b.Goal.IsTrue()
+							next = append(next, &nb)
+						}
+					}
+					base = next
+				}
+				o.Subs = base
+			}
+		}
+		if !c.Lemma && !c.Pure && len(c.Modifies) == 0 && !c.Allocates && len(c.Ensures) > 0 {
+			// callers assume that a callee without modifies/allocates returns only pre-existing references
+			var refs []*Term
+			var walk func(v Val)
+			walk = func(v Val) {
+				if v.Tuple != nil {
+					for _, t := range v.Tuple {
+						walk(t)
+					}
+					return
+				}
+				if v.T == nil || len(v.C) == 0 {
+					return
+				}
+				switch u := v.T.Underlying().(type) {
+				case *types.Pointer, *types.Slice, *types.Map:
+					refs = append(refs, v.C[0])
+				case *types.Struct:
+					for i := 0; i < u.NumFields(); i++ {
+						walk(fieldOf(v, i))
+					}
+				}
+			}
+			walk(rv)
+			a0 := entry.alloc()
+			var conj []*Term
+			for _, r := range refs {
+				conj = append(conj, Or(Eq(r, IntC(0)), Select(a0, r)))
+			}
+			if len(conj) > 0 {
+				fxp.oblige("post.noalloc", "post", out, And(conj...), fn.Pos(), "results are nil or existed at entry (no modifies/allocates clause)")
 			}
 		}
 		for i, m := range c.Preserves {
